@@ -125,59 +125,95 @@ EXT2_608 = ["Ã", "ã", "Í", "Ì", "ì", "Ò", "ò", "Õ", "õ", "{", "}", "\\"
 BASIC_VISIBLE = [c for c in BASIC_CHARS if c != " "]
 
 
-def rand_tokens(rng, n, p_special=0.08, p_ext=0.08, p_space=0.12, p_nonascii=0.12):
-    """n displayed cells drawn from EVERY code of the three character tables; no blank at either end.
-    token = basic character | ('sp', i) | ('ext', stand-in, group, i)"""
+def rand_tokens(rng, n, p_special=0.08, p_ext=0.08, p_space=0.12, p_nonascii=0.12, p_mid=0.0, p_bs=0.0,
+                blank_ends=0.0, sp9=False):
+    """n displayed cells drawn from EVERY code of the three character tables.
+    token = basic character | ('sp', i) | ('ext', stand-in, group, i) | ('mid', a) | ('bs',)
+    p_mid: mid-row codes (one blank cell, rendered as a space or not at all); p_bs: a character followed by a backspace
+    (no cell); blank_ends: probability of a blank as first / last cell and of double blanks; sp9: allow the transparent
+    space (special code 9, a blank)."""
     toks = []
     prev = None
-    for k in range(n):
+    k = 0
+    while k < n:
         r = rng.random()
+        edge = k == 0 or k == n - 1
         if r < p_special:
-            i = rng.choice([j for j in range(16) if j != 9])
+            i = rng.choice([j for j in range(16) if j != 9 or (sp9 and not edge)])
             if prev == ("sp", i):                 # an immediately repeated special code is one character (608)
                 i = (i + 1) % 16 if (i + 1) % 16 != 9 else 10
             t = ("sp", i)
         elif r < p_special + p_ext:
-            t = ("ext", rng.choice("aeoucAEOUnN-x"), rng.randint(0, 1), rng.randint(0, 31))
-        elif r < p_special + p_ext + p_space and 0 < k < n - 1 and prev != " ":
+            t = ("ext", rng.choice(BASIC_VISIBLE), rng.randint(0, 1), rng.randint(0, 31))
+        elif r < p_special + p_ext + p_space and ((0 < k < n - 1 and (prev != " " or rng.random() < blank_ends))
+                                                  or (edge and n > 1 and rng.random() < blank_ends)):
             t = " "
         elif r < p_special + p_ext + p_space + p_nonascii:
             t = rng.choice(list(BASIC_EXC))
+        elif r < p_special + p_ext + p_space + p_nonascii + p_mid and 0 < k and prev not in (" ",) and k < n - 1:
+            t = ("mid", rng.choice([14, 14, 15, 0, 0, 1, rng.randint(0, 15)]))
+        elif r < p_special + p_ext + p_space + p_nonascii + p_mid + p_bs:
+            toks.append(rng.choice(BASIC_VISIBLE))            # a character that is erased again: no cell
+            toks.append(("bs",))
+            prev = ("bs",)
+            continue
         else:
             t = rng.choice(BASIC_VISIBLE)
         toks.append(t)
         prev = t
+        k += 1
+    if toks and all(t == " " for t in toks):
+        toks[0] = "x"
     return toks
 
 
-def tokens_text(toks):
-    """what a 608 screen shows for the tokens"""
-    out = []
+def tokens_cells(toks):
+    """cells of the 608 screen row: characters, None for the blank cell of a mid-row code"""
+    cells = []
     for t in toks:
         if isinstance(t, str):
-            out.append(t)
+            cells.append(t)
         elif t[0] == "sp":
-            out.append(SPECIAL_608[t[1]])
-        else:
-            out.append((EXT1_608 if t[2] == 0 else EXT2_608)[t[3]])
-    return "".join(out)
+            cells.append(SPECIAL_608[t[1]])
+        elif t[0] == "ext":
+            cells.append((EXT1_608 if t[2] == 0 else EXT2_608)[t[3]])
+        elif t[0] == "mid":
+            cells.append(None)
+        elif t[0] == "bs":
+            if cells:
+                cells.pop()
+    return cells
+
+
+def tokens_bounds(toks):
+    """(shortest, longest) text a reader may show: a mid-row blank is a space or nothing; trailing blanks are not shown"""
+    cells = tokens_cells(toks)
+    lo = "".join(c for c in cells if c is not None).rstrip()
+    hi = "".join(" " if c is None else c for c in cells).rstrip()
+    return lo, hi
+
+
+def tokens_text(toks):
+    """what a 608 screen shows for the tokens (mid-row blank shown as a space)"""
+    return "".join(" " if c is None else c for c in tokens_cells(toks))
 
 
 def tokens_words(toks, doubled):
-    """code words: basic characters in pairs (padded before a code / at the end), special and extended codes doubled
-    in doubled mode; an extended character is preceded by its stand-in"""
+    """code words: basic characters in pairs (padded before a code / at the end); special, extended, mid-row and backspace
+    codes doubled when `doubled` (a bool, or a callable deciding per code); an extended character follows its stand-in"""
+    dd = doubled if callable(doubled) else (lambda: doubled)
     ws = []
     run = ""
     for t in toks:
         if isinstance(t, str):
             run += t
-        elif t[0] == "sp":
-            ws += text_words(run)
-            run = ""
-            ws += dbl([special(t[1])], doubled)
-        else:
-            ws += text_words(run + t[1])
-            run = ""
-            ws += dbl([extended(t[2], t[3])], doubled)
+            continue
+        if t[0] == "ext":
+            run += t[1]
+        ws += text_words(run)
+        run = ""
+        code = {"sp": lambda: special(t[1]), "ext": lambda: extended(t[2], t[3]), "mid": lambda: midrow(t[1]),
+                "bs": lambda: BS}[t[0]]()
+        ws += dbl([code], dd())
     ws += text_words(run)
     return ws
